@@ -12,7 +12,7 @@ the routine pushes; LR a Thumb address) the theorem `*_run` says: running the ge
   * changes no other memory except the pushed words just below SP.
 Method: as in `A64Proofs.lean` / `AsmProofs.lean` (symbolic execution by `simp` on named intermediates, then a
 twelve-limb carry/borrow chain lemma).  The 21k-instruction multiplication / Montgomery routines of multiply.s have
-a model and are tied to the real code by the judge, but have no theorem.
+a model, are tied to the real code by the judge, and are proved in `Proofs/Thumb1Mul*.lean` (`Properties/C03d.lean`).
 -/
 import JediVerif.Gen.AsmV6M
 import JediVerif.Proofs.A64Proofs
